@@ -105,6 +105,13 @@ def analyzer_cases(draw, tier="quick", histories=False):
     else:
         d = draw(MG.manager_cases(tier, tasks=("detection", "tracking"), max_frames=6 if big else 4))
     _scalar_xy(d)
+    if d["frame"] == "map" and draw(st.integers(0, 2)) == 0:
+        # ego on a slope (any real localisation pose has some roll / pitch): the table is still in the ego's own frame
+        for f in d["frames"]:
+            if len(f["ego"]) == 3:
+                x, y, yaw = f["ego"]
+                f["ego"] = [x, y, draw(st.integers(-8, 8)) / 4.0, yaw, draw(st.integers(-8, 8)) / 40.0, draw(st.integers(-8, 8)) / 40.0]
+        d["slope"] = True
     nf = len(d["frames"])
     ns = min(ns, nf)
     cuts = []
@@ -549,6 +556,8 @@ def _body(ctx, d):
             ctx.cls(name)
     if any(o.get("vel") is not None for f in case["frames"] for o in f["gt"] + f["est"]):
         ctx.cls("with_velocity")
+    if case.get("slope"):
+        ctx.cls("map_frame_ego_on_slope")
     ctx.mark_nontrivial(tot["TP"] > 0 and n_fp_gt > 0 and n_fp_nogt > 0 and tot["FN"] > 0)
 
 
